@@ -9,6 +9,7 @@
 //   arg     A+<off> | N | #<int> | <ptr>,<ptr> (one strtok call: str, delim)
 // Result:    <ret> <hex of every buffer afterwards>      (see Main.lean)
 #include "common/hv.h"
+#include "C08_shared.h"
 #include <sanitizer/asan_interface.h>
 #include <strings.h>
 #include <memory>
@@ -52,10 +53,91 @@ extern "C"
     char *igv_strlwr(char *);
     char *igv_strupr(char *);
     unsigned igv_block_sz(void);
+    unsigned igv_char_bit(void);
     int igv_char_is_signed(void);
     int igv_ct_libc(int which, int c);
     int igv_ct_igris(int which, int c);
     unsigned igv_plat2(int k);
+}
+
+#define NOSAN __attribute__((no_sanitize("address", "undefined")))
+
+// ROUND 3b (fragility): every function under test is a WEAK reference.  When a file of compat/libc/string
+// is moved / split / removed (C08_impl.c includes each file only if it exists) the check still builds and
+// the ops of exactly the missing functions report "missing-function" with a failing oracle.
+#pragma weak igv_memcpy
+#pragma weak igv_memmove
+#pragma weak igv_memset
+#pragma weak igv_memcmp
+#pragma weak igv_memchr
+#pragma weak igv_memrchr
+#pragma weak igv_strlen
+#pragma weak igv_strnlen
+#pragma weak igv_strcpy
+#pragma weak igv_strncpy
+#pragma weak igv_strlcpy
+#pragma weak igv_strcat
+#pragma weak igv_strncat
+#pragma weak igv_strcmp
+#pragma weak igv_strncmp
+#pragma weak igv_strcasecmp
+#pragma weak igv_strncasecmp
+#pragma weak igv_strchr
+#pragma weak igv_strrchr
+#pragma weak igv_strchrnul
+#pragma weak igv_strstr
+#pragma weak igv_strcasestr
+#pragma weak igv_strspn
+#pragma weak igv_strcspn
+#pragma weak igv_strpbrk
+#pragma weak igv_strtok
+#pragma weak igv_strtok_r
+#pragma weak igv_strdup
+#pragma weak igv_strndup
+#pragma weak igv_strlwr
+#pragma weak igv_strupr
+static const struct { const char *name; const void *fp; } FN_TABLE[] = {
+    {"memcpy", (const void *)&igv_memcpy},
+    {"memmove", (const void *)&igv_memmove},
+    {"memset", (const void *)&igv_memset},
+    {"memcmp", (const void *)&igv_memcmp},
+    {"memchr", (const void *)&igv_memchr},
+    {"memrchr", (const void *)&igv_memrchr},
+    {"strlen", (const void *)&igv_strlen},
+    {"strnlen", (const void *)&igv_strnlen},
+    {"strcpy", (const void *)&igv_strcpy},
+    {"strncpy", (const void *)&igv_strncpy},
+    {"strlcpy", (const void *)&igv_strlcpy},
+    {"strcat", (const void *)&igv_strcat},
+    {"strncat", (const void *)&igv_strncat},
+    {"strcmp", (const void *)&igv_strcmp},
+    {"strncmp", (const void *)&igv_strncmp},
+    {"strcasecmp", (const void *)&igv_strcasecmp},
+    {"strncasecmp", (const void *)&igv_strncasecmp},
+    {"strchr", (const void *)&igv_strchr},
+    {"strrchr", (const void *)&igv_strrchr},
+    {"strchrnul", (const void *)&igv_strchrnul},
+    {"strstr", (const void *)&igv_strstr},
+    {"strcasestr", (const void *)&igv_strcasestr},
+    {"strspn", (const void *)&igv_strspn},
+    {"strcspn", (const void *)&igv_strcspn},
+    {"strpbrk", (const void *)&igv_strpbrk},
+    {"strtok", (const void *)&igv_strtok},
+    {"strtok_r", (const void *)&igv_strtok_r},
+    {"strdup", (const void *)&igv_strdup},
+    {"strndup", (const void *)&igv_strndup},
+    {"strlwr", (const void *)&igv_strlwr},
+    {"strupr", (const void *)&igv_strupr},
+};
+NOSAN static bool fn_present(const std::string &fn)
+{
+    for (auto &e : FN_TABLE)
+        if (fn == e.name)
+        {
+            const void *volatile p = e.fp;
+            return p != nullptr;
+        }
+    return true;
 }
 
 // ------------------------------------------------------------ byte-exact access monitor (round 3)
@@ -69,7 +151,6 @@ extern "C"
 // every alignment, and it records the extent of all reads and writes per
 // buffer so that the oracle can compare them with the ranges the definition
 // allows (also when the argument lies inside a larger buffer).
-#define NOSAN __attribute__((no_sanitize("address", "undefined")))
 struct Zone
 {
     uintptr_t blo, bhi; // the malloc block
@@ -143,8 +224,10 @@ static std::string hashed(const uint8_t *p, size_t n)
     return b;
 }
 
-static_assert(sizeof(long) == 8 && sizeof(void *) == 8, "LP64 expected");
-static_assert((char)0xff < 0, "char is expected to be signed");
+// ROUND 3b: no static_assert on sizeof(long) / the signedness of char any more.  No result of any op
+// depends on them (the model is the LP64 / signed-char INSTANCE of the code; the ISO definitions the
+// oracle and the theorems state are the same on every platform), so they are reported as TAGS of the
+// ops `plat` / `plat2` and a build with -funsigned-char or another word size stays green.
 
 // ------------------------------------------------------------ allocation hook
 // strdup/strndup: `malloc` is a parameter of the check
@@ -163,6 +246,13 @@ extern "C" void *igv_malloc(size_t n)
     zone_add(g_blk, n ? n : 1, g_blk, n);
     g_mon = was;
     return g_blk;
+}
+
+extern "C" void *igv_calloc(size_t a, size_t b)
+{
+    void *p = igv_malloc(a * b);
+    if (p) memset(p, 0, a * b);
+    return p;
 }
 
 // ------------------------------------------------------------ buffers
@@ -300,7 +390,6 @@ static bool has_nul(const uint8_t *p, size_t n)
     return false;
 }
 
-static const char *const CT_NAMES[13] = {"isalnum", "isalpha", "isblank", "isdigit", "islower", "isprint", "isspace", "isupper", "isxdigit", "tolower", "toupper", "isascii", "toascii"};
 // the "C" locale definition, by the host libc for the arguments ISO C allows
 // (EOF, 0..255; the harness never calls setlocale) and by the definition itself
 // elsewhere (no int outside 0..127 is in any class; conversions return it unchanged)
@@ -329,13 +418,6 @@ static int ct_norm(int which, int v) { return which <= 8 || which == 11 ? !!v : 
 // ops executed BEFORE main() by a constructor of the highest priority (nothing of
 // the library may depend on static initialisation: strtok's static, lazily built
 // tables, ...); the op `premain <k> <line>` reports what they returned
-static const char *const PREMAIN_LINES[] = {
-    "strtok A=0:612c623b3b632c6400 B=0:2c00 C=0:3b00 A+0,B+0 N,C+0 N,B+0 N,B+0 N,B+0",
-    "memmove A=0:000102030405060708090a0b0c0d0e0f101112131415161718191a1b1c1d1e1f202122232425262728292a2b2c2d2e2f A+8 A+0 #40",
-    "cttab tolower libc",
-    "strcasecmp A=0:41625a7a00 B=0:61427a5a00 A+0 B+0",
-};
-static const int PREMAIN_N = sizeof PREMAIN_LINES / sizeof PREMAIN_LINES[0];
 static char g_pm_result[PREMAIN_N][2048], g_pm_oracle[PREMAIN_N][512];
 
 static void run_op(const std::vector<std::string> &w_, const std::string &line_, out &o)
@@ -365,9 +447,13 @@ static void run_op(const std::vector<std::string> &w_, const std::string &line_,
     if (fn == "reset") { o.result = "ok"; return; }
     if (fn == "plat2")
     {
+        // ROUND 3b: compared = what the property depends on (the width of `int`, the domain of the ctype
+        // functions and of the `int c` arguments, and the ASCII codes of the letters); sizeof(long) and
+        // sizeof(size_t) are TAGS: no result depends on them
         static const char *const nm[8] = {"long", "size_t", "int", "A", "Z", "a", "z", "delta"};
-        for (int k = 0; k < 8; k++) o.result += std::string(k ? " " : "") + nm[k] + "=" + std::to_string(igv_plat2(k));
+        for (int k = 2; k < 8; k++) o.result += std::string(k > 2 ? " " : "") + nm[k] + "=" + std::to_string(igv_plat2(k));
         o.tag("plat2");
+        for (int k = 0; k < 2; k++) o.tag((std::string(nm[k]) + "=" + std::to_string(igv_plat2(k))).c_str());
         return;
     }
     if (fn == "cttab" || fn == "ctype")
@@ -408,7 +494,12 @@ static void run_op(const std::vector<std::string> &w_, const std::string &line_,
     }
     if (fn == "plat")
     {
-        o.result = "long=" + std::to_string(igv_block_sz()) + " char=" + (igv_char_is_signed() ? "signed" : "unsigned");
+        // ROUND 3b: compared = CHAR_BIT (the model's Byte is BitVec 8); memcpy.c's file-local BLOCK_SZ (0 when the
+        // macro no longer exists) and the signedness of plain char are TAGS: no result depends on them
+        o.result = "char_bit=" + std::to_string(igv_char_bit());
+        o.tag("plat");
+        o.tag(("block_sz=" + std::to_string(igv_block_sz())).c_str());
+        o.tag(igv_char_is_signed() ? "char=signed" : "char=unsigned");
         return;
     }
     // ---- parse
@@ -471,6 +562,12 @@ static void run_op(const std::vector<std::string> &w_, const std::string &line_,
     };
     o.tag(fn.c_str());
     if (lg) o.tag("long");
+    if (!fn_present(fn))
+    {
+        o.result = "missing-function";
+        o.fail(fn + " is named by the property but none of the files of compat/libc/string the harness includes defines it");
+        return;
+    }
     for (size_t k = 0; k < bufs.size(); k++)
     {
         bytes v(bufs[k]->p, bufs[k]->p + bufs[k]->n);
@@ -706,7 +803,16 @@ static void run_op(const std::vector<std::string> &w_, const std::string &line_,
         exp = g_fail ? "N" : lg ? hashed((uint8_t *)e, strlen(e) + 1) : hex((uint8_t *)e, strlen(e) + 1);
         if (!r) ret = "N";
         else if ((uint8_t *)r != g_blk) ret = "not-the-malloc-block";
-        else ret = lg ? hashed(g_blk, g_blk_n) : hex(g_blk, g_blk_n);
+        else
+        {
+            // ROUND 3b: the definition fixes the STRING in the new block, not the size passed to malloc (an
+            // implementation may round it up): compared = the block up to and including its first NUL (the
+            // whole block when it has none); the size is a tag.  Too small a block is an ASan / monitor report.
+            size_t shown = g_blk_n;
+            for (size_t q = 0; q < g_blk_n; q++) if (!g_blk[q]) { shown = q + 1; break; }
+            if (shown != g_blk_n) o.tag("block>string");
+            ret = lg ? hashed(g_blk, shown) : hex(g_blk, shown);
+        }
         if (g_fail) o.tag("malloc-fails");
         free(e);
         free(g_blk);
@@ -831,595 +937,7 @@ struct Premain
 };
 __attribute__((init_priority(101))) static Premain g_premain_object;
 
-// ---------------------------------------------------------------- gen
-static const std::vector<uint8_t> SPECIAL = {0x01, 0x7f, 0x80, 0xff, 'A', 'Z', 'a', 'z', '@', '[', '`', '{', 0xC1, 0xE1, ' ', ','};
-
-static bytes rbytes(rng &r, size_t n, bool allow_zero)
-{
-    bytes m(n);
-    int mode = (int)r.below(4);
-    for (auto &x : m)
-    {
-        if (mode == 0) x = r.pick(SPECIAL);
-        else if (mode == 1) x = (uint8_t)('a' + r.below(3)) ^ (r.chance(30) ? 0x20 : 0);
-        else x = (uint8_t)r.next();
-        if (allow_zero && mode == 0 && r.chance(10)) x = 0;
-        if (!allow_zero && x == 0) x = (uint8_t)(1 + r.below(255));
-    }
-    return m;
-}
-static bytes cstr(bytes v) { v.push_back(0); return v; }
-static bytes cat(bytes a, const bytes &b) { a.insert(a.end(), b.begin(), b.end()); return a; }
-static std::string B(char name, unsigned align, const bytes &v)
-{
-    return std::string(1, name) + "=" + std::to_string(align) + ":" + hex(v);
-}
-static std::string cint(rng &r, uint8_t b)
-{
-    // an `int` whose conversion to (unsigned) char is b
-    switch (r.below(5))
-    {
-    case 0: return "#" + std::to_string((int)b);
-    case 1: return "#" + std::to_string((int)(int8_t)b);
-    case 2: return "#" + std::to_string((int)b + 256);
-    case 3: return "#" + std::to_string((int)b - 512);
-    default: return "#" + std::to_string((int)b + 256 * (int)r.range(-3, 3));
-    }
-}
-static void E(const std::string &s) { puts(s.c_str()); }
-static std::string N(uint64_t n) { return "#" + std::to_string(n); }
-static std::string Pp(char b, size_t off) { return std::string(1, b) + "+" + std::to_string(off); }
-
-// ---------------------------------------------------------------- round 3
-static std::string LB(char name, unsigned align, size_t len, unsigned mul, unsigned add, const std::vector<std::pair<size_t, uint8_t>> &patch = {})
-{
-    std::string t = std::string(1, name) + "=" + std::to_string(align) + ":@" + std::to_string(len) + "," + std::to_string(mul) + "," + std::to_string(add);
-    char b[40];
-    for (auto &pp : patch) { snprintf(b, sizeof b, ",%zu=%02x", pp.first, pp.second); t += b; }
-    return t;
-}
-static uint8_t pat(size_t i, unsigned mul, unsigned add) { return (uint8_t)(1 + (i * mul + add) % 251); }
-
-__attribute__((no_sanitize("address", "undefined"))) static void gen3(rng &r, bool th, int K)
-{
-    // ---- constants and tables read out of the build
-    E("plat2");
-    for (int k = 0; k < 13; k++) E(std::string("cttab ") + CT_NAMES[k] + " libc");
-    for (int k = 0; k < 13; k++) E(std::string("cttab ") + CT_NAMES[k] + " igris");
-    for (int c = -1; c <= 255; c++) E("ctype #" + std::to_string(c));
-    for (long long c : {-2LL, -128LL, -129LL, -191LL, -159LL, -256LL, 256LL, 257LL, 256LL + 'A', 256LL + 'a', 512LL + '0', 256LL + ' ', 65536LL + 'A', 0x7fffff41LL, 2147483647LL, -2147483648LL, -2147483647LL, 0x100LL + 0x7f, 0x80LL, 0x17fLL, -0x80LL + 0x100})
-        E("ctype #" + std::to_string(c));
-    for (int k = 0; k < 40 * K; k++) E("ctype #" + std::to_string((long long)(int32_t)r.next()));
-    // ---- before main()
-    for (int k = 0; k < PREMAIN_N; k++) E("premain " + std::to_string(k) + " " + PREMAIN_LINES[k]);
-
-    // ---- arguments INSIDE larger buffers: only the access monitor can tell whether
-    // the call stayed inside the range the definition allows
-    auto emb = [&](const bytes &v, size_t &x) {
-        x = r.range(1, 9);
-        return cat(rbytes(r, x, true), cat(v, rbytes(r, r.range(1, 9), true)));
-    };
-    for (int k = 0; k < 120 * K; k++)
-    {
-        size_t x, y;
-        size_t l1 = r.range(0, 40), l2 = r.range(0, 12);
-        bytes s1 = rbytes(r, l1, false), s2 = rbytes(r, l2, false);
-        if (r.chance(50) && l1 >= l2 && l2) std::copy(s2.begin(), s2.end(), s1.begin() + r.below(l1 - l2 + 1));
-        std::string A = B('A', r.below(8), emb(cstr(s1), x)), Bb = B('B', r.below(8), emb(cstr(s2), y));
-        std::string pa = Pp('A', x), pb = Pp('B', y);
-        uint8_t c = r.chance(60) && l1 ? s1[r.below(l1)] : (uint8_t)r.next();
-        for (const char *fn : {"strlen"}) E(std::string(fn) + " " + A + " " + pa);
-        for (const char *fn : {"strchr", "strrchr", "strchrnul"}) E(std::string(fn) + " " + A + " " + pa + " " + cint(r, c));
-        for (const char *fn : {"strcmp", "strcasecmp", "strstr", "strcasestr", "strspn", "strcspn", "strpbrk"}) E(std::string(fn) + " " + A + " " + Bb + " " + pa + " " + pb);
-        for (uint64_t n : {(uint64_t)0, (uint64_t)1, (uint64_t)(l1 ? l1 - 1 : 0), (uint64_t)l1, (uint64_t)l1 + 1, (uint64_t)r.range(0, 45)})
-        {
-            if (!th && r.chance(50)) continue;
-            E("strnlen " + A + " " + pa + " " + N(n));
-            E("strncmp " + A + " " + Bb + " " + pa + " " + pb + " " + N(n));
-            E("strncasecmp " + A + " " + Bb + " " + pa + " " + pb + " " + N(n));
-            E("memchr " + A + " " + pa + " " + cint(r, c) + " " + N(std::min<uint64_t>(n, l1 + 1)));
-            E("memrchr " + A + " " + pa + " " + cint(r, c) + " " + N(std::min<uint64_t>(n, l1 + 1)));
-            E("memcmp " + A + " " + Bb + " " + pa + " " + pb + " " + N(std::min<uint64_t>(n, std::min(l1, l2) + 1)));
-            E("strndup " + A + " " + pa + " " + N(n) + " #0");
-        }
-        E("strdup " + A + " " + pa + " #0");
-        // writers: the destination lies inside a larger buffer
-        {
-            size_t dx = r.range(1, 9), room = l2 + 1 + r.range(0, 5), dl = r.range(0, 10);
-            bytes d = cat(rbytes(r, dx, true), cat(cstr(rbytes(r, dl, false)), rbytes(r, room, true)));
-            std::string D = B('A', r.below(8), d);
-            E("strcat " + D + " " + Bb + " " + Pp('A', dx) + " " + pb);
-            E("strcpy " + D + " " + Bb + " " + Pp('A', dx) + " " + pb);
-            for (uint64_t n : {(uint64_t)0, (uint64_t)1, (uint64_t)(l2 ? l2 - 1 : 0), (uint64_t)l2, (uint64_t)l2 + 1})
-                if (th || r.chance(50)) E("strncat " + D + " " + Bb + " " + Pp('A', dx) + " " + pb + " " + N(n));
-        }
-        // a token history inside a larger buffer, the delimiter sets change between the calls
-        {
-            static const std::vector<uint8_t> AL = {',', ';', 'a', 'b', 0xE1};
-            size_t sl = r.range(0, 14), tx;
-            bytes t(sl);
-            for (auto &ch : t) ch = r.pick(AL);
-            std::string line = "strtok_r " + B('A', r.below(8), emb(cstr(t), tx)) + " " + B('B', r.below(8), cstr({','})) + " " + B('C', r.below(8), cstr({';', 0xE1}));
-            line += " " + Pp('A', tx) + ",B+0";
-            for (int i = 0, nc = (int)r.range(1, 6); i < nc; i++) line += r.chance(50) ? " N,C+0" : " N,B+0";
-            E(line);
-        }
-    }
-    // aliasing (read-only) arguments: the same string / overlapping suffixes passed twice
-    for (int k = 0; k < 60 * K; k++)
-    {
-        size_t l = r.range(0, 24), x;
-        bytes s1(l);
-        for (auto &c : s1) c = (uint8_t)("abAB,\xe1"[r.below(6)]);
-        std::string A = B('A', r.below(8), emb(cstr(s1), x));
-        size_t j = r.below(l + 1), j2 = r.below(l + 1);
-        std::string p0 = Pp('A', x), pj = Pp('A', x + j), pj2 = Pp('A', x + j2);
-        for (const char *fn : {"strcmp", "strcasecmp", "strstr", "strcasestr", "strspn", "strcspn", "strpbrk"})
-        {
-            E(std::string(fn) + " " + A + " " + p0 + " " + p0);
-            E(std::string(fn) + " " + A + " " + p0 + " " + pj);   // the needle / set is a suffix of the string itself: a match at the very end
-            E(std::string(fn) + " " + A + " " + pj + " " + pj2);  // also needles longer than the haystack
-        }
-        for (uint64_t n : {(uint64_t)0, (uint64_t)1, (uint64_t)l, (uint64_t)l + 1, ~(uint64_t)0})
-        {
-            E("strncmp " + A + " " + p0 + " " + pj + " " + N(n));
-            E("strncasecmp " + A + " " + pj2 + " " + pj + " " + N(n));
-        }
-        E("memcmp " + A + " " + p0 + " " + p0 + " " + N(l + 1));
-        E("memcmp " + A + " " + p0 + " " + pj + " " + N(l + 1 - j));
-    }
-    // memchr / strnlen / strncmp with n = SIZE_MAX where ISO defines it (the match / terminator exists)
-    for (int k = 0; k < 30 * K; k++)
-    {
-        size_t l = r.range(0, 30), x;
-        bytes s1 = rbytes(r, l, false);
-        std::string A = B('A', r.below(8), emb(cstr(s1), x));
-        E("memchr " + A + " " + Pp('A', x) + " #0 " + N(~(uint64_t)0));
-        if (l) E("memchr " + A + " " + Pp('A', x) + " " + cint(r, s1[r.below(l)]) + " " + N(~(uint64_t)0 - r.below(3)));
-        E("strnlen " + A + " " + Pp('A', x) + " " + N(~(uint64_t)0));
-        E("strncmp " + A + " " + B('B', r.below(8), cstr(s1)) + " " + Pp('A', x) + " B+0 " + N(~(uint64_t)0));
-        E("strncasecmp " + A + " " + B('B', r.below(8), cstr(s1)) + " " + Pp('A', x) + " B+0 " + N(~(uint64_t)0));
-        E("strndup " + A + " " + Pp('A', x) + " " + N(~(uint64_t)0) + " #0");
-        E("strncat " + B('A', r.below(8), cat(cstr(rbytes(r, 3, false)), bytes(l, 0x11))) + " " + B('B', r.below(8), cstr(s1)) + " A+0 B+0 " + N(~(uint64_t)0));
-    }
-    // boundary sizes 255 / 256 / 257 and 65535 / 65536 / 65537 (a counter narrowed to 8 or 16 bits)
-    for (size_t n : {255u, 256u, 257u, 65535u, 65536u, 65537u})
-    {
-        std::string sn = N(n);
-        unsigned al = (unsigned)r.below(8);
-        E("L:memcpy " + LB('A', al, n, 0, 0) + " " + LB('B', 8 - al, n, 7, 3) + " A+0 B+0 " + sn);
-        E("L:memmove " + LB('A', al, n + 9, 13, 5) + " A+9 A+0 " + sn);
-        E("L:memset " + LB('A', al, n, 5, 1) + " A+0 #171 " + sn);
-        E("L:memcmp " + LB('A', al, n, 7, 3) + " " + LB('B', 1, n, 7, 3, {{n - 1, 0xff}}) + " A+0 B+0 " + sn);
-        E("L:memchr " + LB('A', al, n, 0, 4, {{n - 1, 0xff}}) + " A+0 #255 " + sn);
-        E("L:memrchr " + LB('A', al, n, 0, 4, {{0, 0xff}}) + " A+0 #255 " + sn);
-        E("L:strlen " + LB('A', al, n + 1, 7, 3, {{n, 0}}) + " A+0");
-        E("L:strnlen " + LB('A', al, n + 1, 7, 3, {{n, 0}}) + " A+0 " + N(n + 5));
-        E("L:strcpy " + LB('A', al, n + 1, 0, 0) + " " + LB('B', 3, n + 1, 7, 3, {{n, 0}}) + " A+0 B+0");
-        E("L:strncpy " + LB('A', al, n, 0, 0) + " " + LB('B', 3, 10, 7, 3, {{9, 0}}) + " A+0 B+0 " + sn);
-        E("L:strcmp " + LB('A', al, n + 1, 7, 3, {{n, 0}}) + " " + LB('B', 5, n + 1, 7, 3, {{n - 1, 0xfe}, {n, 0}}) + " A+0 B+0");
-        E("L:strncmp " + LB('A', al, n + 1, 7, 3, {{n, 0}}) + " " + LB('B', 5, n + 1, 7, 3, {{n - 1, 0xfe}, {n, 0}}) + " A+0 B+0 " + sn);
-        E("L:strncmp " + LB('A', al, n + 1, 7, 3, {{n, 0}}) + " " + LB('B', 5, n + 1, 7, 3, {{n - 1, 0xfe}, {n, 0}}) + " A+0 B+0 " + N(n - 1));
-        E("L:strchr " + LB('A', al, n + 1, 0, 4, {{n - 1, 0xff}, {n, 0}}) + " A+0 #255");
-        E("L:strrchr " + LB('A', al, n + 1, 0, 4, {{0, 0xff}, {n, 0}}) + " A+0 #-1");
-        E("L:strdup " + LB('A', al, n + 1, 7, 3, {{n, 0}}) + " A+0 #0");
-        E("L:strndup " + LB('A', al, n + 1, 7, 3, {{n, 0}}) + " A+0 " + N(n - 1) + " #0");
-        E("L:strlcpy " + LB('A', al, n, 0, 0) + " " + LB('B', 3, n + 3, 7, 3, {{n + 2, 0}}) + " A+0 B+0 " + sn);
-    }
-    // ---- long inputs (>= 300 KiB) once per linear routine
-    {
-        const size_t L = 307203;
-        std::string sL = N(L);
-        // positions of letters in the pattern (mul 7, add 3) for the case-insensitive comparisons
-        std::vector<std::pair<size_t, uint8_t>> flips;
-        for (size_t i = 1000; i < L - 10 && flips.size() < 12; i += 23456)
-            for (size_t j = i; j < i + 300; j++)
-                if (isalpha(pat(j, 7, 3))) { flips.push_back({j, (uint8_t)(pat(j, 7, 3) ^ 0x20)}); break; }
-        auto with = [](std::vector<std::pair<size_t, uint8_t>> v, std::vector<std::pair<size_t, uint8_t>> more) { v.insert(v.end(), more.begin(), more.end()); return v; };
-        E("L:memcpy " + LB('A', 8, L, 0, 0) + " " + LB('B', 0, L, 7, 3) + " A+0 B+0 " + sL);
-        E("L:memcpy " + LB('A', 1, L, 0, 0) + " " + LB('B', 2, L, 7, 3) + " A+0 B+0 " + sL);
-        E("L:memmove " + LB('A', 0, L + 104, 13, 5) + " A+104 A+0 " + sL);
-        E("L:memmove " + LB('A', 0, L + 104, 13, 5) + " A+0 A+104 " + sL);
-        E("L:memmove " + LB('A', 3, L + 1, 13, 5) + " A+0 A+1 " + sL);
-        E("L:memset " + LB('A', 3, L, 5, 1) + " A+0 #-85 " + sL);
-        E("L:memcmp " + LB('A', 0, L, 7, 3) + " " + LB('B', 1, L, 7, 3, {{L - 1, 0xff}}) + " A+0 B+0 " + sL);
-        E("L:memcmp " + LB('A', 0, L, 7, 3) + " " + LB('B', 1, L, 7, 3) + " A+0 B+0 " + sL);
-        E("L:memchr " + LB('A', 5, L, 0, 4, {{L - 1, 0xff}}) + " A+0 #255 " + sL);
-        E("L:memchr " + LB('A', 5, L, 0, 4) + " A+0 #255 " + sL);
-        E("L:memchr " + LB('A', 5, L, 0, 4, {{L - 1, 0xff}}) + " A+0 #-1 " + N(~(uint64_t)0));
-        E("L:memrchr " + LB('A', 6, L, 0, 4, {{0, 0xff}}) + " A+0 #255 " + sL);
-        E("L:memrchr " + LB('A', 6, L, 0, 4) + " A+0 #255 " + sL);
-        E("L:strlen " + LB('A', 7, L, 7, 3, {{L - 1, 0}}) + " A+0");
-        E("L:strnlen " + LB('A', 7, L, 7, 3, {{L - 1, 0}}) + " A+0 " + N(~(uint64_t)0));
-        E("L:strnlen " + LB('A', 7, L, 7, 3) + " A+0 " + sL);
-        E("L:strcpy " + LB('A', 2, L, 0, 0) + " " + LB('B', 3, L, 7, 3, {{L - 1, 0}}) + " A+0 B+0");
-        E("L:strncpy " + LB('A', 2, L, 0, 0) + " " + LB('B', 3, 70001, 7, 3, {{70000, 0}}) + " A+0 B+0 " + sL);
-        E("L:strncpy " + LB('A', 2, L, 0, 0) + " " + LB('B', 3, L, 7, 3) + " A+0 B+0 " + sL);
-        E("L:strlcpy " + LB('A', 2, L, 0, 0) + " " + LB('B', 3, L + 40, 7, 3, {{L + 39, 0}}) + " A+0 B+0 " + sL);
-        E("L:strlcpy " + LB('A', 2, 5, 0, 0) + " " + LB('B', 3, L, 7, 3, {{L - 1, 0}}) + " A+0 B+0 #5");
-        E("L:strcat " + LB('A', 4, L, 0, 8, {{10, 0}}) + " " + LB('B', 1, L - 11, 7, 3, {{L - 12, 0}}) + " A+0 B+0");
-        E("L:strncat " + LB('A', 4, L, 0, 8, {{10, 0}}) + " " + LB('B', 1, L - 11, 7, 3, {{L - 12, 0}}) + " A+0 B+0 " + sL);
-        E("L:strncat " + LB('A', 4, L, 0, 8, {{10, 0}}) + " " + LB('B', 1, L - 12, 7, 3) + " A+0 B+0 " + N(L - 12));
-        E("L:strcmp " + LB('A', 0, L, 7, 3, {{L - 1, 0}}) + " " + LB('B', 5, L, 7, 3, {{L - 2, 0xfe}, {L - 1, 0}}) + " A+0 B+0");
-        E("L:strcmp " + LB('A', 0, L, 7, 3, {{L - 1, 0}}) + " " + LB('B', 5, L, 7, 3, {{L - 1, 0}}) + " A+0 B+0");
-        E("L:strncmp " + LB('A', 0, L, 7, 3, {{L - 1, 0}}) + " " + LB('B', 5, L, 7, 3, {{L - 2, 0xfe}, {L - 1, 0}}) + " A+0 B+0 " + N(~(uint64_t)0));
-        E("L:strncmp " + LB('A', 0, L, 7, 3) + " " + LB('B', 5, L, 7, 3, {{L - 1, 0xfe}}) + " A+0 B+0 " + N(L - 1));
-        E("L:strcasecmp " + LB('A', 0, L, 7, 3, {{L - 1, 0}}) + " " + LB('B', 5, L, 7, 3, with(flips, {{L - 1, 0}})) + " A+0 B+0");
-        E("L:strcasecmp " + LB('A', 0, L, 7, 3, {{L - 1, 0}}) + " " + LB('B', 5, L, 7, 3, with(flips, {{L - 2, 0xfe}, {L - 1, 0}})) + " A+0 B+0");
-        E("L:strncasecmp " + LB('A', 0, L, 7, 3, {{L - 1, 0}}) + " " + LB('B', 5, L, 7, 3, with(flips, {{L - 2, 0xfe}, {L - 1, 0}})) + " A+0 B+0 " + N(L - 2));
-        E("L:strncasecmp " + LB('A', 0, L, 7, 3, {{L - 1, 0}}) + " " + LB('B', 5, L, 7, 3, with(flips, {{L - 2, 0xfe}, {L - 1, 0}})) + " A+0 B+0 " + sL);
-        E("L:strchr " + LB('A', 1, L, 0, 4, {{L - 2, 0xff}, {L - 1, 0}}) + " A+0 #255");
-        E("L:strchr " + LB('A', 1, L, 0, 4, {{L - 1, 0}}) + " A+0 #255");
-        E("L:strchr " + LB('A', 1, L, 0, 4, {{L - 1, 0}}) + " A+0 #256");
-        E("L:strchrnul " + LB('A', 1, L, 0, 4, {{L - 1, 0}}) + " A+0 #255");
-        E("L:strrchr " + LB('A', 1, L, 0, 4, {{0, 0xff}, {L - 1, 0}}) + " A+0 #-1");
-        E("L:strrchr " + LB('A', 1, L, 0, 4, {{L - 1, 0}}) + " A+0 #5");
-        E("L:strrchr " + LB('A', 1, L, 0, 4, {{L - 1, 0}}) + " A+0 #0");
-        E("L:strstr " + LB('A', 2, L, 0, 96, {{L - 2, 'b'}, {L - 1, 0}}) + " " + B('B', 0, cstr({'a', 'b'})) + " A+0 B+0");
-        E("L:strstr " + LB('A', 2, L, 0, 96, {{L - 1, 0}}) + " " + B('B', 0, cstr({'a', 'b'})) + " A+0 B+0");
-        E("L:strcasestr " + LB('A', 2, L, 0, 96, {{L - 2, 'b'}, {L - 1, 0}}) + " " + B('B', 0, cstr({'A', 'B'})) + " A+0 B+0");
-        E("L:strspn " + LB('A', 3, L, 0, 96, {{L - 1, 0}}) + " " + B('B', 0, cstr({'b', 'a'})) + " A+0 B+0");
-        E("L:strcspn " + LB('A', 3, L, 0, 96, {{L - 2, ','}, {L - 1, 0}}) + " " + B('B', 0, cstr({';', ','})) + " A+0 B+0");
-        E("L:strpbrk " + LB('A', 3, L, 0, 96, {{L - 2, ','}, {L - 1, 0}}) + " " + B('B', 0, cstr({';', ','})) + " A+0 B+0");
-        E("L:strtok_r " + LB('A', 3, L, 0, 96, {{0, ','}, {L - 5, ','}, {L - 1, 0}}) + " " + B('B', 0, cstr({','})) + " A+0,B+0 N,B+0 N,B+0");
-        E("L:strdup " + LB('A', 7, L, 7, 3, {{L - 1, 0}}) + " A+0 #0");
-        E("L:strndup " + LB('A', 7, L, 7, 3) + " A+0 " + sL + " #0");
-        E("L:strndup " + LB('A', 7, L, 7, 3, {{L - 1, 0}}) + " A+0 " + N(L - 7) + " #0");
-        E("L:strlwr " + LB('A', 5, L, 0, 119, {{0, 'Q'}, {65535, 'A'}, {65536, 'Z'}, {L - 2, 'M'}, {L - 1, 0}}) + " A+0");
-        E("L:strupr " + LB('A', 5, L, 0, 87, {{0, 'q'}, {65535, 'a'}, {65536, 'z'}, {L - 2, 'm'}, {L - 1, 0}}) + " A+0");
-    }
-}
-
-// pure generation (no code under test runs here): not instrumenting it cuts the
-// harness compile time from 40 s to 15 s
-__attribute__((no_sanitize("address", "undefined"))) static void gen(rng &r, const std::string &tier)
-{
-    bool th = tier == "thorough";
-    int K = th ? 6 : 1;
-    E("plat");
-    bytes all256(256);
-    for (int i = 0; i < 256; i++) all256[i] = (uint8_t)i;
-    bytes all255(all256.begin() + 1, all256.end());
-
-    // ---- memcpy: every length 0..70 at all 8x8 alignments, exactly sized buffers
-    for (int n = 0; n <= 70; n++)
-        for (unsigned da = 0; da < 8; da++)
-            for (unsigned sa = 0; sa < 8; sa++)
-                E("memcpy " + B('A', da, bytes(n, 0xA5)) + " " + B('B', sa, rbytes(r, n, true)) + " A+0 B+0 " + N(n));
-    for (unsigned al = 0; al < 8; al++)
-    {
-        E("memcpy " + B('A', al, bytes(256, 0)) + " " + B('B', 7 - al, all256) + " A+0 B+0 #256");
-        E("memmove " + B('A', al, bytes(256, 0)) + " " + B('B', 7 - al, all256) + " A+0 B+0 #256");
-    }
-    for (int k = 0; k < 300 * K; k++)
-    {
-        // destination inside a larger buffer: the bytes around it must survive
-        size_t n = r.range(0, 70), x = r.range(0, 9), y = r.range(0, 9), u = r.range(0, 9), v = r.range(0, 9);
-        E(std::string(r.chance(50) ? "memcpy " : "memmove ") + B('A', r.below(8), rbytes(r, x + n + y, true)) + " " + B('B', r.below(8), rbytes(r, u + n + v, true)) + " " + Pp('A', x) + " " + Pp('B', u) + " " + N(n));
-    }
-    // ---- memmove inside one buffer: every overlap offset -40..40, every length
-    for (int off = -40; off <= 40; off++)
-        for (int n = 0; n <= 70; n++)
-        {
-            size_t d = off > 0 ? off : 0, s = off < 0 ? -off : 0;
-            size_t size = (off < 0 ? -off : off) + n;
-            for (unsigned al = 0; al < 8; al++)
-            {
-                // all 8 absolute alignments: dst and src are 8-aligned together
-                // (memcpy's word path) only when the offset is a multiple of 8
-                E("memmove " + B('A', al, rbytes(r, size, true)) + " " + Pp('A', d) + " " + Pp('A', s) + " " + N(n));
-            }
-        }
-    // ---- the word path of memcpy (n >= 32, both pointers 8-aligned): every
-    // length 32..160 (several rounds of the 4x loop, 0..3 rounds of the 1x loop,
-    // every tail), disjoint buffers and overlapping ones at multiples of 8
-    for (int n = 32; n <= 160; n++)
-        for (unsigned al : {0u, 8u})
-        {
-            E("memcpy " + B('A', al, bytes(n, 0xA5)) + " " + B('B', 8 - al, rbytes(r, n, true)) + " A+0 B+0 " + N(n));
-            E("memmove " + B('A', al, bytes(n, 0xA5)) + " " + B('B', al, rbytes(r, n, true)) + " A+0 B+0 " + N(n));
-        }
-    for (int off : {-64, -40, -32, -24, -16, -8, 8, 16, 32, 64})
-        for (int n = 32; n <= 100; n++)
-        {
-            size_t d = off > 0 ? off : 0, s = off < 0 ? -off : 0;
-            size_t size = (off < 0 ? -off : off) + n;
-            E("memmove " + B('A', (n % 2) * 8, rbytes(r, size, true)) + " " + Pp('A', d) + " " + Pp('A', s) + " " + N(n));
-        }
-    for (int n : {0, 1, 7, 8, 9, 31, 32, 33, 40, 63, 64, 65, 70})
-        for (unsigned da = 0; da < 8; da++)
-            for (unsigned sa = 0; sa < 8; sa++)
-                E("memmove " + B('A', da, bytes(n, 0x5A)) + " " + B('B', sa, rbytes(r, n, true)) + " A+0 B+0 " + N(n));
-    // ---- memset
-    for (int n = 0; n <= 70; n++)
-        for (unsigned al = 0; al < 8; al++)
-            for (int k = 0; k < 2; k++)
-                E("memset " + B('A', al, rbytes(r, n, true)) + " A+0 " + cint(r, k ? (uint8_t)r.next() : r.pick(SPECIAL)) + " " + N(n));
-    for (int c = -128; c < 512; c += (th ? 1 : 5))
-        E("memset " + B('A', r.below(8), bytes(3, 0x11)) + " A+0 #" + std::to_string(c) + " #3");
-    for (int k = 0; k < 200 * K; k++)
-    {
-        size_t n = r.range(0, 40), x = r.range(0, 9), y = r.range(0, 9);
-        E("memset " + B('A', r.below(8), rbytes(r, x + n + y, true)) + " " + Pp('A', x) + " " + cint(r, (uint8_t)r.next()) + " " + N(n));
-    }
-    // ---- memcmp
-    static const uint8_t PAIRS[][2] = {{0, 1}, {0x7f, 0x80}, {0x80, 0x7f}, {0xff, 0}, {0, 0xff}, {0xff, 0xfe}, {'a', 'A'}, {1, 0x81}};
-    for (int rep = 0; rep < K; rep++)
-        for (int n = 0; n <= 70; n++)
-        {
-            bytes x = rbytes(r, n, true);
-            E("memcmp " + B('A', r.below(8), x) + " " + B('B', r.below(8), x) + " A+0 B+0 " + N(n));
-            for (int k : {0, n / 2, n - 1, (int)r.range(0, n ? n - 1 : 0)})
-            {
-                if (k < 0 || k >= n) continue;
-                bytes y = x, z = x;
-                auto &pr = PAIRS[r.below(8)];
-                if (r.chance(70)) { y[k] = pr[0]; z[k] = pr[1]; } else { z[k] = (uint8_t)(y[k] + 1 + r.below(255)); }
-                // everything after the first difference is random
-                for (int j = k + 1; j < n; j++) if (r.chance(50)) z[j] = (uint8_t)r.next();
-                E("memcmp " + B('A', r.below(8), y) + " " + B('B', r.below(8), z) + " A+0 B+0 " + N(n));
-            }
-            // a difference just behind n must not be looked at
-            bytes y = cat(x, {0x10}), z = cat(x, {0x20});
-            E("memcmp " + B('A', r.below(8), y) + " " + B('B', r.below(8), z) + " A+0 B+0 " + N(n));
-        }
-    // ---- memchr / memrchr
-    for (int rep = 0; rep < K; rep++)
-        for (int n = 0; n <= 70; n++)
-            for (const char *fn : {"memchr", "memrchr"})
-            {
-                uint8_t c = r.chance(50) ? r.pick(SPECIAL) : (uint8_t)r.next();
-                bytes x = rbytes(r, n, true);
-                for (auto &b : x) if (b == c) b ^= 0x55;
-                E(std::string(fn) + " " + B('A', r.below(8), x) + " A+0 " + cint(r, c) + " " + N(n));
-                for (int k : {0, n / 2, n - 1})
-                {
-                    if (k < 0 || k >= n) continue;
-                    bytes y = x;
-                    y[k] = c;
-                    if (r.chance(40)) y[r.below(n)] = c; // a second occurrence
-                    E(std::string(fn) + " " + B('A', r.below(8), y) + " A+0 " + cint(r, c) + " " + N(n));
-                }
-            }
-    for (int k = 0; k < 200 * K; k++)
-    {
-        // C11 7.24.5.1: memchr stops at the first match, so n may exceed the object then
-        size_t n = r.range(1, 30), at = r.below(n);
-        uint8_t c = (uint8_t)r.next();
-        bytes x = rbytes(r, n, true);
-        for (auto &b : x) if (b == c) b ^= 0x55;
-        x[at] = c;
-        x.resize(at + 1);
-        E("memchr " + B('A', r.below(8), x) + " A+0 " + cint(r, c) + " " + N(n + r.range(0, 100)));
-    }
-    // ---- strlen / strnlen
-    for (int len = 0; len <= 70; len++)
-        for (unsigned al = 0; al < 8; al++)
-            E("strlen " + B('A', al, cstr(rbytes(r, len, false))) + " A+0");
-    E("strlen " + B('A', 0, cstr(all255)) + " A+0");
-    for (int k = 0; k < 100 * K; k++)
-    {
-        size_t len = r.range(0, 30), x = r.range(0, 9);
-        E("strlen " + B('A', r.below(8), cat(rbytes(r, x, true), cstr(rbytes(r, len, false)))) + " " + Pp('A', x));
-    }
-    for (int rep = 0; rep < K; rep++)
-        for (int len = 0; len <= 40; len++)
-        {
-            bytes s = rbytes(r, len, false);
-            for (uint64_t n : {(uint64_t)0, (uint64_t)1, (uint64_t)(len ? len - 1 : 0), (uint64_t)len, (uint64_t)len + 1, (uint64_t)len + 9, (uint64_t)1 << 20, ~(uint64_t)0})
-                E("strnlen " + B('A', r.below(8), cstr(s)) + " A+0 " + N(n));
-            // not NUL-terminated: exactly n bytes exist
-            E("strnlen " + B('A', r.below(8), s) + " A+0 " + N(len));
-            if (len) E("strnlen " + B('A', r.below(8), s) + " A+0 " + N(len - 1));
-        }
-    // ---- strcpy
-    for (int len = 0; len <= 70; len++)
-        for (unsigned da = 0; da < 8; da++)
-            for (unsigned sa = 0; sa < 8; sa++)
-                if (th || len <= 12 || (da == (unsigned)(len % 8)) || (sa == (unsigned)((len / 8 + da) % 8)))
-                    E("strcpy " + B('A', da, bytes(len + 1, 0xA5)) + " " + B('B', sa, cstr(rbytes(r, len, false))) + " A+0 B+0");
-    E("strcpy " + B('A', 0, bytes(256, 0x11)) + " " + B('B', 0, cstr(all255)) + " A+0 B+0");
-    // ---- strncpy / strlcpy
-    for (int rep = 0; rep < K; rep++)
-        for (int sl = 0; sl <= 20; sl++)
-            for (int n = 0; n <= 24; n++)
-            {
-                bytes s = rbytes(r, sl, false);
-                E("strncpy " + B('A', r.below(8), rbytes(r, n, true)) + " " + B('B', r.below(8), cstr(s)) + " A+0 B+0 " + N(n));
-                if (sl >= n) // the source array need not be terminated when it has n characters
-                    E("strncpy " + B('A', r.below(8), rbytes(r, n, true)) + " " + B('B', r.below(8), bytes(s.begin(), s.begin() + n)) + " A+0 B+0 " + N(n));
-                E("strlcpy " + B('A', r.below(8), rbytes(r, n, true)) + " " + B('B', r.below(8), cstr(s)) + " A+0 B+0 " + N(n));
-            }
-    for (int k = 0; k < 100 * K; k++)
-    {
-        // destination inside a larger buffer
-        size_t sl = r.range(0, 12), n = r.range(0, 16), x = r.range(1, 5), y = r.range(1, 5);
-        bytes s = cstr(rbytes(r, sl, false));
-        E("strncpy " + B('A', r.below(8), rbytes(r, x + n + y, true)) + " " + B('B', r.below(8), s) + " " + Pp('A', x) + " B+0 " + N(n));
-        E("strlcpy " + B('A', r.below(8), rbytes(r, x + n + y, true)) + " " + B('B', r.below(8), s) + " " + Pp('A', x) + " B+0 " + N(n));
-    }
-    // ---- strcat / strncat
-    for (int rep = 0; rep < K; rep++)
-        for (int dl = 0; dl <= 12; dl++)
-            for (int sl = 0; sl <= 12; sl++)
-            {
-                bytes d = cat(cstr(rbytes(r, dl, false)), rbytes(r, sl, true));
-                E("strcat " + B('A', r.below(8), d) + " " + B('B', r.below(8), cstr(rbytes(r, sl, false))) + " A+0 B+0");
-            }
-    for (int rep = 0; rep < K; rep++)
-        for (int dl = 0; dl <= 6; dl++)
-            for (int sl = 0; sl <= 11; sl++)
-                for (int n = 0; n <= 13; n++)
-                {
-                    int cpy = sl < n ? sl : n;
-                    bytes d = cat(cstr(rbytes(r, dl, false)), rbytes(r, cpy, true));
-                    bytes s = rbytes(r, sl, false);
-                    if (sl >= n && r.chance(50))
-                        E("strncat " + B('A', r.below(8), d) + " " + B('B', r.below(8), bytes(s.begin(), s.begin() + n)) + " A+0 B+0 " + N(n));
-                    else
-                        E("strncat " + B('A', r.below(8), d) + " " + B('B', r.below(8), cstr(s)) + " A+0 B+0 " + N(n));
-                }
-    // ---- strcmp / strncmp / strcasecmp / strncasecmp
-    static const uint8_t SP[][2] = {{0x7f, 0x80}, {0x80, 0x7f}, {0xff, 0x01}, {0x01, 0xff}, {'a', 'A'}, {'Z', 'z'}, {'@', '`'}, {'[', '{'}, {0xC1, 0xE1}, {'a', 'B'}, {'B', 'a'}, {'Z', '['}, {'z', '{'}, {'A', '@'}, {'_', 'a'}, {'_', 'A'}};
-    for (int rep = 0; rep < 600 * K; rep++)
-    {
-        size_t pl = r.range(0, 20);
-        bytes p = rbytes(r, pl, false), q = p;
-        bool flip = r.chance(50);
-        if (flip)
-            for (auto &c : q) if (isalpha(c) && r.chance(50)) c ^= 0x20;
-        bytes x = p, y = q;
-        int kind = (int)r.below(5);
-        if (kind == 1) y = cat(y, rbytes(r, r.range(1, 4), false));       // x is a proper prefix
-        else if (kind == 2) x = cat(x, rbytes(r, r.range(1, 4), false));  // y is a proper prefix
-        else if (kind >= 3)
-        {
-            auto &pr = SP[r.below(16)];
-            uint8_t u = pr[0], v = pr[1];
-            if (kind == 4) { u = (uint8_t)(1 + r.below(255)); v = (uint8_t)(1 + r.below(255)); }
-            x.push_back(u); y.push_back(v);
-            x = cat(x, rbytes(r, r.range(0, 4), false));
-            y = cat(y, rbytes(r, r.range(0, 4), false));
-        }
-        std::string bx = B('A', r.below(8), cstr(x)), by = B('B', r.below(8), cstr(y));
-        E("strcmp " + bx + " " + by + " A+0 B+0");
-        E("strcasecmp " + bx + " " + by + " A+0 B+0");
-        for (uint64_t n : {(uint64_t)0, (uint64_t)pl, (uint64_t)pl + 1, (uint64_t)(pl ? pl - 1 : 0), (uint64_t)r.range(0, 30), ~(uint64_t)0})
-        {
-            if (!th && r.chance(40)) continue;
-            E("strncmp " + bx + " " + by + " A+0 B+0 " + N(n));
-            E("strncasecmp " + bx + " " + by + " A+0 B+0 " + N(n));
-        }
-        // arrays of exactly n characters, no terminator: decided within n, or equal on all n
-        size_t n = x.size() < y.size() ? x.size() : y.size();
-        bytes xa(x.begin(), x.begin() + n), ya(y.begin(), y.begin() + n);
-        E("strncmp " + B('A', r.below(8), xa) + " " + B('B', r.below(8), ya) + " A+0 B+0 " + N(n));
-        E("strncasecmp " + B('A', r.below(8), xa) + " " + B('B', r.below(8), ya) + " A+0 B+0 " + N(n));
-    }
-    // every byte against its case partner / neighbour: tolower must be the C-locale ASCII map
-    for (int c = 1; c < 256; c++)
-        for (int d : {c ^ 0x20, c, (c + 1) & 0xff})
-        {
-            if (d == 0) continue;
-            bytes x = {(uint8_t)c, 0}, y = {(uint8_t)d, 0};
-            E("strcasecmp " + B('A', 0, x) + " " + B('B', 0, y) + " A+0 B+0");
-            E("strncasecmp " + B('A', 0, x) + " " + B('B', 0, y) + " A+0 B+0 #1");
-            E("strcmp " + B('A', 0, x) + " " + B('B', 0, y) + " A+0 B+0");
-            E("strcasestr " + B('A', 0, x) + " " + B('B', 0, y) + " A+0 B+0");
-        }
-    // ---- strchr / strrchr / strchrnul
-    for (int rep = 0; rep < K; rep++)
-        for (int len = 0; len <= 40; len++)
-            for (const char *fn : {"strchr", "strrchr", "strchrnul"})
-            {
-                uint8_t c = r.chance(50) ? r.pick(SPECIAL) : (uint8_t)(1 + r.below(255));
-                bytes x = rbytes(r, len, false);
-                for (auto &b : x) if (b == c) b = (uint8_t)(b == 0x55 ? 0x56 : 0x55);
-                std::string f(fn);
-                E(f + " " + B('A', r.below(8), cstr(x)) + " A+0 " + cint(r, c));          // absent
-                E(f + " " + B('A', r.below(8), cstr(x)) + " A+0 " + cint(r, 0));          // the terminator
-                for (int k : {0, len / 2, len - 1})
-                {
-                    if (k < 0 || k >= len) continue;
-                    bytes y = x;
-                    y[k] = c;
-                    if (r.chance(50)) y[r.below(len)] = c;
-                    E(f + " " + B('A', r.below(8), cstr(y)) + " A+0 " + cint(r, c));
-                }
-            }
-    for (int c = -300; c <= 600; c += (th ? 1 : 3))
-        for (const char *fn : {"strchr", "strrchr", "strchrnul"})
-            E(std::string(fn) + " " + B('A', 0, cstr({0x2c, 0xac, 0x01, 0xff, 0x2c, 0x80})) + " A+0 #" + std::to_string(c));
-    // ---- strstr / strcasestr: all haystacks up to 5 and needles up to 3 over {a,b}
-    auto enumerate = [&](const char *fn, const std::vector<uint8_t> &al, int hmax, int nmax) {
-        std::vector<bytes> hs{{}}, ns;
-        for (size_t i = 0; i < hs.size(); i++)
-            if ((int)hs[i].size() < hmax)
-                for (uint8_t c : al) hs.push_back(cat(hs[i], {c}));
-        for (auto &h : hs) if ((int)h.size() <= nmax) ns.push_back(h);
-        for (auto &h : hs)
-            for (auto &n : ns)
-                E(std::string(fn) + " " + B('A', 0, cstr(h)) + " " + B('B', 0, cstr(n)) + " A+0 B+0");
-    };
-    enumerate("strstr", {'a', 'b'}, 5, 3);
-    enumerate("strcasestr", {'a', 'B', 'b'}, 4, 2);
-    for (int k = 0; k < 1200 * K; k++)
-    {
-        size_t hl = r.range(0, 24), nl = r.range(0, 6);
-        bytes h = rbytes(r, hl, false), n;
-        if (hl && r.chance(60))
-        {
-            size_t at = r.below(hl), l = std::min(nl, hl - at);
-            n = bytes(h.begin() + at, h.begin() + at + l);
-            if (r.chance(30)) n.push_back((uint8_t)(1 + r.below(255))); // almost a match / runs off the end
-        }
-        else n = rbytes(r, nl, false);
-        bytes nc = n;
-        for (auto &c : nc) if (r.chance(50)) c ^= 0x20; // case partner or not a letter at all
-        for (auto &c : nc) if (!c) c = 0x20;
-        E("strstr " + B('A', r.below(8), cstr(h)) + " " + B('B', r.below(8), cstr(n)) + " A+0 B+0");
-        E("strcasestr " + B('A', r.below(8), cstr(h)) + " " + B('B', r.below(8), cstr(nc)) + " A+0 B+0");
-    }
-    // ---- strspn / strcspn / strpbrk
-    enumerate("strspn", {'a', 0xE1}, 4, 2);
-    enumerate("strcspn", {'a', 0xE1}, 4, 2);
-    enumerate("strpbrk", {'a', 0xE1}, 4, 2);
-    for (int k = 0; k < 800 * K; k++)
-    {
-        static const std::vector<uint8_t> AL = {'a', 'b', ',', 0x80, 0xff, 0x01, 'A'};
-        size_t sl = r.range(0, 20), al = r.range(0, 5);
-        bytes s(sl), set(al);
-        for (auto &c : set) c = r.pick(AL);
-        for (auto &c : s) c = r.chance(70) ? r.pick(AL) : (uint8_t)(1 + r.below(255));
-        for (const char *fn : {"strspn", "strcspn", "strpbrk"})
-            E(std::string(fn) + " " + B('A', r.below(8), cstr(s)) + " " + B('B', r.below(8), cstr(set)) + " A+0 B+0");
-    }
-    // ---- strtok / strtok_r
-    for (int k = 0; k < 1500 * K; k++)
-    {
-        static const std::vector<uint8_t> AL = {',', ';', 'a', 'b', ' ', 0xE1, ','};
-        static const std::vector<bytes> DS = {{','}, {';'}, {',', ';'}, {}, {' ', ','}, {0xE1}, {',', ',', 'a'}};
-        size_t sl = r.range(0, 16);
-        bytes s(sl);
-        for (auto &c : s) c = r.pick(AL);
-        std::string line = std::string(r.chance(50) ? "strtok " : "strtok_r ") + B('A', r.below(8), cstr(s));
-        // up to three delimiter strings
-        int nd = (int)r.range(1, 3);
-        for (int i = 0; i < nd; i++) line += " " + B((char)('B' + i), r.below(8), cstr(r.pick(DS)));
-        int calls = (int)r.range(1, 8);
-        bool reent = line[6] == '_';
-        for (int i = 0; i < calls; i++)
-        {
-            std::string d = Pp((char)('B' + (r.chance(75) ? 0 : r.below(nd))), 0);
-            if (i == 0 && (!reent || r.chance(90))) line += " A+0," + d;
-            else if (r.chance(8)) line += " " + Pp('A', r.below(sl + 1)) + "," + d; // start over somewhere
-            else line += " N," + d;
-        }
-        E(line);
-    }
-    // ---- strdup / strndup
-    for (int rep = 0; rep < K; rep++)
-        for (int len = 0; len <= 40; len++)
-        {
-            bytes s = rbytes(r, len, false);
-            E("strdup " + B('A', r.below(8), cstr(s)) + " A+0 #0");
-            if (len % 8 == 0) E("strdup " + B('A', r.below(8), cstr(s)) + " A+0 #1");
-            for (uint64_t n : {(uint64_t)0, (uint64_t)(len ? len - 1 : 0), (uint64_t)len, (uint64_t)len + 1, (uint64_t)len + 20, (uint64_t)r.range(0, len)})
-                E("strndup " + B('A', r.below(8), cstr(s)) + " A+0 " + N(n) + " #" + (r.chance(5) ? "1" : "0"));
-            // an array of exactly n characters without terminator
-            E("strndup " + B('A', r.below(8), s) + " A+0 " + N(len) + " #0");
-            if (len > 2) E("strndup " + B('A', r.below(8), s) + " A+0 " + N(len - 2) + " #0");
-        }
-    // ---- strlwr / strupr
-    E("strlwr " + B('A', 0, cstr(all255)) + " A+0");
-    E("strupr " + B('A', 0, cstr(all255)) + " A+0");
-    for (int k = 0; k < 300 * K; k++)
-    {
-        size_t len = r.range(0, 40), x = r.range(0, 3);
-        bytes s = cat(rbytes(r, x, true), cat(cstr(rbytes(r, len, false)), rbytes(r, r.range(0, 3), true)));
-        E(std::string(r.chance(50) ? "strlwr " : "strupr ") + B('A', r.below(8), s) + " " + Pp('A', x));
-    }
-    gen3(r, th, K);
-}
+// the generator lives in C08_gen.cpp (round 3b: two translation units, compiled in parallel by bin/check)
+void gen(hv::rng &r, const std::string &tier);
 
 int main(int argc, char **argv) { return main_(argc, argv, gen, run_op); }
